@@ -70,7 +70,7 @@ CLAIMED.update({
 CLAIMED.update({
     "C05": ("Coq proof (atom-string emitters + sign clean-up + maximal-munch lexer + precedence parser evaluated symbolically; 64 sign/zero classes x every gas-phase type discharged by computation and ring reasoning over R, for all magnitudes and all interpretations of the library functions) + exact-text correspondence + tokenizer / g++ / numeric-law oracle",
             "Theorems in Props/C05.v: for KIDA formulae 1-5, UMIST two-body / photo / cosmic-ray proton / cosmic-ray photon, Leeds types 1-4, 11, 12 (with self-shielding), UCLCHEM two-body / cosmic ray / cosmic-ray photon / photo (with the CO special case) and the native types, the emitted text - after the sign clean-up, lexed with C's maximal munch and parsed with C precedence - denotes the database's law for every value of |alpha|, |beta|, |gamma|, each of the 4x4x4 sign/zero classes (+, -, 0.0, -0.0) and every value of temperature, extinction, ionisation rate ... (any interpretation with pow(x,0)=1, exp(0)=1, in particular the real functions); formula 6 and unknown codes are refused; every emitted string parses and holds no fused operator. The type codes and the presence of the clean-up in the native class are regenerated from /repo. Tied to rateexpr() by exact comparison of the text for all classes and several magnitude shapes.",
-            "The bridge between Python's str.replace on characters and the model's replace on atom strings is proved (beautify_bridge) under a decidable premise on the atoms that the extracted model evaluates for every magnitude sent; the reference laws are a transcription; inf/nan coefficients excluded; floating-point evaluation is outside the theorems (numeric oracle uses a relative tolerance).",
+            "Tie by translation as well: harness/gen_ratesrc.py translates the five rateexpr() methods of /repo into coq/gen/RateLive.v on every run; live_rate_sources proves the translated branches are the model templates, rate_models_are_source_branches that the model functions return the beautified text of each branch (three branches with an inner if are pinned as source text). The bridge between Python's str.replace on characters and the model's replace on atom strings is proved (beautify_bridge) under a decidable premise on the atoms that the extracted model evaluates for every magnitude sent; the reference laws are a transcription; inf/nan coefficients excluded; floating-point evaluation is outside the theorems (numeric oracle uses a relative tolerance).",
             "7 C05"),
 })
 
